@@ -28,7 +28,7 @@ def case_json(c):
 def run_family(ctx, oracle, sig, use_model=True, apis=("validate", "normalized"), model_filter=None,
                n_quick=2500, n_thorough=80000, genkws=({}, {"max_depth": 4, "nested_bias": True}), rule="", extra=None):
     thorough = ctx["tier"] == "thorough"
-    n = n_thorough if thorough else n_quick
+    n = n_thorough if thorough else n_quick * ctx.get('scale', 1)
     violations, samples = [], []
     dist = collections.Counter()
     distinct = set()
